@@ -52,6 +52,8 @@ Record input := {
   k : ktag;
   cons : list constr;
   cov : Q;
+  cov_len : option Q;              (* subpath_constraints_coverage_length (DAG models only) *)
+  has_len_attr : bool;             (* length_attr is not None *)
   starts : list bool; ends : list bool;        (* additional starts / ends: membership in the graph *)
   ign : list item;                              (* raw elements_to_ignore *)
   search_enters : bool;            (* Min* classes: lower bound < number_of_edges(), i.e. the k-loop body runs *)
@@ -89,6 +91,9 @@ Definition k_pos_int (i : input) := match k i with KInt z => Z.ltb 0 z | KNonInt
 Definition k_is_int (i : input) := match k i with KInt _ => true | KNonInt _ => false end.
 Definition k_le0 (i : input) := match k i with KInt z => Z.leb z 0 | KNonInt q => Qle_bool q 0 end.
 Definition cov_ok (i : input) := negb (Qle_bool (cov i) 0) && Qle_bool (cov i) 1.
+Definition has_covlen (i : input) := match cov_len i with Some _ => true | None => false end.
+Definition covlen_ok (i : input) := match cov_len i with Some l => negb (Qle_bool l 0) && Qle_bool l 1 | None => true end.
+Definition cov_lt1 (i : input) := negb (Qle_bool 1 (cov i)).
 Definition wtype_ok (i : input) := match wtype i with TOther => false | _ => true end.
 Definition origin_ok (i : input) := match origin i with OOther => false | _ => true end.
 
@@ -211,7 +216,11 @@ Definition v_maxflow (i : input) : step :=
 Definition v_pathmodel (i : input) (k_bad : bool) : step :=
   guard k_bad VE ;>
   check_cons (internal_cons i) ;>
-  guard (negb (cov_ok i)) VE ;> None.
+  guard (negb (cov_ok i)) VE ;>
+  (* only with constraints: the length-based coverage, its length attribute, and "not both" (abstractpathmodeldag.py:181-192) *)
+  guard (negb (is_nil (cons i)) && has_covlen i && negb (covlen_ok i)) VE ;>
+  guard (negb (is_nil (cons i)) && has_covlen i && negb (has_len_attr i)) VE ;>
+  guard (negb (is_nil (cons i)) && has_covlen i && cov_lt1 i) VE ;> None.
 (* AbstractWalkModelDiGraph.__init__ (abstractwalkmodeldigraph.py:108-139): k, constraints, coverage *)
 Definition v_walkmodel_k (i : input) (k_bad : bool) : step :=
   guard k_bad VE ;>
@@ -396,6 +405,10 @@ Definition dom_ign (i : input) :=
 Definition dom_starts (i : input) := all_in (starts i) && all_in (ends i).
 Definition dom_weights (i : input) := wtype_ok i && negb (bad_live i).
 Definition dom_cons (i : input) := cons_wf i && cov_ok i.
+(* DAG models: subpath_constraints_coverage_length in (0,1], needs length_attr, and excludes a coverage below 1; like the code,
+   the documentation ties these to the presence of constraints *)
+Definition dom_covlen (i : input) :=
+  is_nil (cons i) || negb (has_covlen i) || (covlen_ok i && has_len_attr i && negb (cov_lt1 i)).
 Definition dom_flow (i : input) := conserving i || negb (ign_internal_empty i).
 
 Definition in_domain_stDAG (i : input) := dom_graph_dag i && dom_starts i.
@@ -404,18 +417,18 @@ Definition in_domain_NodeExpandedDiGraph (i : input) :=
   negb (Nat.eqb (n_nodes i) 0) && all_str i && dom_starts i.
 
 Definition in_domain_kFlowDecomp (i : input) :=
-  origin_ok i && dom_size i && dom_graph_dag i && dom_ign i && dom_weights i && dom_flow i && k_pos_int i && dom_cons i.
+  origin_ok i && dom_size i && dom_graph_dag i && dom_ign i && dom_weights i && dom_flow i && k_pos_int i && dom_cons i && dom_covlen i.
 Definition in_domain_MinFlowDecomp (i : input) :=
-  origin_ok i && dom_size i && dom_graph_dag i && dom_ign i && dom_weights i && dom_flow i && dom_cons i && dom_starts i &&
+  origin_ok i && dom_size i && dom_graph_dag i && dom_ign i && dom_weights i && dom_flow i && dom_cons i && dom_covlen i && dom_starts i &&
   match origin i with ONode => true | _ => is_nil (starts i) && is_nil (ends i) end.   (* documented: node mode only *)
 Definition in_domain_kErrDAG (i : input) :=
-  origin_ok i && dom_size i && dom_graph_dag i && dom_ign i && dom_weights i && k_pos_int i && dom_cons i && dom_starts i.
+  origin_ok i && dom_size i && dom_graph_dag i && dom_ign i && dom_weights i && k_pos_int i && dom_cons i && dom_covlen i && dom_starts i.
 Definition in_domain_kMinPathError := in_domain_kErrDAG.
 Definition in_domain_kLeastAbsErrors := in_domain_kErrDAG.
 Definition in_domain_kPathCover (i : input) :=
-  origin_ok i && dom_size i && dom_graph_dag i && dom_ign i && k_pos_int i && dom_cons i && dom_starts i.
+  origin_ok i && dom_size i && dom_graph_dag i && dom_ign i && k_pos_int i && dom_cons i && dom_covlen i && dom_starts i.
 Definition in_domain_MinPathCover (i : input) :=
-  origin_ok i && dom_size i && dom_graph_dag i && dom_ign i && dom_cons i && dom_starts i.
+  origin_ok i && dom_size i && dom_graph_dag i && dom_ign i && dom_cons i && dom_covlen i && dom_starts i.
 (* MinErrorFlow: arbitrary (also negative) weights are corrected; additional starts/ends "apply only to acyclic graphs" *)
 Definition in_domain_MinErrorFlow (i : input) :=
   origin_ok i && dom_size i && all_str i && dom_ign i && wtype_ok i && negb (missing_live i) &&
